@@ -43,6 +43,11 @@ func (r *Run) limitCase(t *testing.T, sc LimitScenario) limitCaseResult {
 		}
 	} else {
 		res.tr = runLimit(sc)
+		if res.tr != nil && res.tr.StuckMsg != "" {
+			// real clock: only a stall that repeats is judged (see joinCase)
+			r.Count("real.stalls_seen_once_and_replayed", 1)
+			res.tr = runLimit(sc)
+		}
 	}
 	if res.tr == nil {
 		r.Inconclusive("limit scenario produced no trace: " + jsonString(sc))
